@@ -562,6 +562,20 @@ func genC06(r *rngT, n int, tier string) {
 		execOp(fmt.Sprintf("swrite common 2 %d %d %d %s %s", 1+r.Intn(255), r.Intn(256), r.Intn(256), hx(key), strings.Join(its, ";")))
 		stat("c06-swrite")
 	}
+	genC06node(r, n, key)
+}
+
+// genC06node: a node configured with an outgoing key signs what it originates (same formula, link id, flag)
+func genC06node(r *rngT, n int, key []byte) {
+	for i := 0; i < n/40+2; i++ {
+		dn := []string{"common", "user"}[r.Intn(2)]
+		var its []string
+		for j := 0; j < 3+r.Intn(12); j++ {
+			its = append(its, fmt.Sprintf("%s@5000000", encMsg(randValue(r, pickMsg(r, dn)))))
+		}
+		execOp(fmt.Sprintf("nwrite %s 2 %d %d %d %s %s", dn, 2+r.Intn(253), r.Intn(3)*r.Intn(128), r.edgeByte(), hx(key), strings.Join(its, ";")))
+		stat("c06-node-signed")
+	}
 }
 
 func signedAt(r *rngT, key []byte, ts uint64) []byte {
